@@ -1,2 +1,57 @@
-(* C11 -- theorems being added *)
-From HS Require Import Lib.Base.
+(* C11 -- abort and disconnect are signalled to the other side, never swallowed (sequential part;
+   the interleavings with a concurrently polling consumer are C10's transition system). *)
+From HS Require Import Lib.Base Model.Chunker Proofs.ChunkerP.
+
+(* abort: the queue is replaced by the error, the registered consumer is woken, the body does
+   not claim to be at end-of-stream, the writer is dead *)
+Theorem c11_abort : forall s, Live s ->
+  let '(s', r, wk) := cstep s OAbort in
+  c_st s' = SErr /\ c_w s' = WDead /\ c_buf s' = [] /\ wk = opt_list (c_waker s) /\ chunker_eos s' = false.
+Proof. exact abort_effect. Qed.
+(* the next terminal event is that error -- never a clean end -- and then the body is fused *)
+Theorem c11_abort_is_reported : forall s w, c_st s = SErr -> c_reader s = true ->
+  let '(s', r, wk) := cstep s (OPoll w) in r = RPoll (Some (Some None)) /\ c_st s' = SFused.
+Proof. exact pending_error_is_reported. Qed.
+(* no data is delivered from the error / fused states: what was delivered before the abort is
+   a prefix of what was accepted (c08_accounting up to the abort) and stays all there is *)
+Theorem c11_no_data_after_abort : forall s w, c_st s = SErr \/ c_st s = SFused ->
+  let '(s', r, wk) := cstep s (OPoll w) in delivered_of r = [] /\ (c_st s' = SErr \/ c_st s' = SFused).
+Proof. exact no_data_after_error. Qed.
+(* every later write or flush fails *)
+Theorem c11_dead_writer_refuses : forall s, c_w s = WDead ->
+  (forall d, cstep s (OWrite d) = (s, RWrite None, [])) /\
+  cstep s OFlush = (s, RIo false, []) /\
+  (forall d, d <> [] -> exists wk, cstep s (OWriteAll d) = (s, RIo false, wk)).
+Proof. exact dead_writer_refuses. Qed.
+
+(* disconnect (with fix F9): dropping the body releases what was queued ... *)
+Theorem c11_disconnect : forall s, c_reader s = true ->
+  let '(s', r, wk) := cstep s ODropReader in c_st s' = SFused /\ pending s' = [] /\ c_waker s' = None /\ c_buf s' = c_buf s.
+Proof. exact disconnect_effect. Qed.
+(* ... a flush with buffered bytes fails and kills the writer ... *)
+Theorem c11_flush_after_disconnect : forall s, c_st s = SFused -> c_w s = WRaw -> c_buf s <> [] ->
+  let '(s', r, wk) := cstep s OFlush in r = RIo false /\ c_w s' = WDead /\ c_buf s' = [].
+Proof. exact flush_after_disconnect. Qed.
+(* ... a chunk-completing write fails; otherwise the buffer stays below cap: never unbounded *)
+Theorem c11_write_after_disconnect : forall s d, CInv s -> c_st s = SFused -> c_w s = WRaw ->
+  let '(s', r, wk) := cstep s (OWrite d) in
+  (c_cap s <= lenN (c_buf s) + lenN d -> r = RWrite None /\ c_w s' = WDead /\ c_buf s' = []) /\
+  (lenN (c_buf s) + lenN d < c_cap s -> r = RWrite (Some (lenN d)) /\ lenN (c_buf s') < c_cap s).
+Proof. exact write_after_disconnect. Qed.
+
+(* the pinned tree: the body drop changed nothing, so 3 x (write a chunk, flush) all succeeded *)
+Example c11_legacy_refuted :
+  let run := fold_left (fun s o => fst (fst (cstep_legacy s o))) [ODropReader] (cinit 2) in
+  let '(s1, r1, _) := cstep_legacy run (OWrite [1; 2]) in
+  let '(s2, r2, _) := cstep_legacy s1 OFlush in
+  let '(s3, r3, _) := cstep (fst (fst (cstep (cinit 2) ODropReader))) (OWrite [1; 2]) in
+  (r1, r2, r3) = (RWrite (Some 2), RIo true, RWrite None).
+Proof. vm_compute. reflexivity. Qed.
+
+Print Assumptions c11_abort.
+Print Assumptions c11_abort_is_reported.
+Print Assumptions c11_no_data_after_abort.
+Print Assumptions c11_dead_writer_refuses.
+Print Assumptions c11_disconnect.
+Print Assumptions c11_flush_after_disconnect.
+Print Assumptions c11_write_after_disconnect.
